@@ -50,7 +50,7 @@ ProofCat == {E("proof", f, x) : f \in Range(Proofs), x \in Range(ProofVals)} \cu
 
 \* ---- v1 signatures: covered fields, key indices, unlock conditions ---------------------------
 CFLists == <<"SiacoinInputs", "SiacoinOutputs", "FileContracts", "FileContractRevisions", "StorageProofs", "SiafundInputs", "SiafundOutputs", "MinerFees", "ArbitraryData", "Signatures">>
-CFVals == <<"len", "len+1", "2^63", "2^64-1", "dup", "unsorted", "10000x0", "all+len">>
+CFVals == <<"len", "len+1", "2^63", "2^64-1", "dup", "unsorted", "40000x0", "all+len">>
 SigNeed == "sig"      \* a v1 transaction with at least one signature
 CoveredCat == {[fam |-> "covered", ver |-> 1, t |-> l, need |-> SigNeed, x |-> x, t2 |-> w, need2 |-> "", x2 |-> ""] : l \in Range(CFLists), x \in Range(CFVals), w \in {"whole", "partial"}}
 SigCat == {E("sig", <<1, "PublicKeyIndex", SigNeed>>, x) : x \in {"len", "1", "2^63", "2^64-1"}} \cup
@@ -66,7 +66,9 @@ SigCat == {E("sig", <<1, "PublicKeyIndex", SigNeed>>, x) : x \in {"len", "1", "2
 
 \* ---- parents and supplements -----------------------------------------------------------------
 Parents == << <<1, "sci", "sci">>, <<1, "sfi", "sfi">>, <<1, "rev", "rev">>, <<1, "res", "res">>, <<2, "sci", "sci">>, <<2, "sfi", "sfi">>, <<2, "rev", "rev">>, <<2, "res", "res">> >>
-ParentCat == {E("parents", f, x) : f \in Range(Parents), x \in {"dup", "unknown-id", "drop", "id-of-other-kind"}}
+\* id-of-other-kind: the id of an element of ANOTHER kind created earlier in the same block (an output id where a contract id belongs, ...);
+\* id-of-committed-other-kind: the same with an element of the committed state
+ParentCat == {E("parents", f, x) : f \in Range(Parents), x \in {"dup", "unknown-id", "drop", "id-of-other-kind", "id-of-committed-other-kind"}}
 SuppCat == {E("supp", <<1, t, "">>, x) : t \in {"sci", "sfi", "rev", "sp", "expiring"}, x \in {"missing", "extra", "dup", "reversed", "from-other-txn"}} \cup
            {E("supp", <<1, "txs", "">>, x) : x \in {"short", "long", "empty", "nil"}} \cup
            {E("supp", <<1, "sp.windowid", "res">>, x) : x \in {"zero", "tip"}} \cup
@@ -104,7 +106,14 @@ ShapeCat == {E("weight", <<v, "arbitrary-data-filler", "">>, x) : v \in {1, 2}, 
             {E("header", <<0, "ParentID", "">>, x) : x \in {"zero", "own-id"}} \cup
             {E("payouts", <<0, "MinerPayouts", "">>, x) : x \in {"none", "two-halves", "1000-entries", "zero-value", "extra-zero-entry", "void-address"}}
 
-Catalogue == CurSingles \cup CurPairs \cup ProofCat \cup CoveredCat \cup SigCat \cup ParentCat \cup SuppCat \cup PolicyCat \cup ResCat \cup EraCat \cup SizeCat \cup WinCat \cup ShapeCat
+\* ---- transactions as a JSON decoder hands them over: members the wire never leaves empty are nil / zero here ---------
+DecodedCat == {E("decoded", <<2, "json", "">>, x) : x \in {"{\"siacoinInputs\":[{}]}", "{\"siafundInputs\":[{}]}", "{\"fileContractResolutions\":[null]}", "{\"fileContractRevisions\":[{}]}",
+                   "{\"fileContracts\":[{}]}", "{\"attestations\":[{}]}", "{\"siacoinOutputs\":[{}]}", "{\"minerFee\":\"1\"}", "{\"siacoinInputs\":[{\"satisfiedPolicy\":{}}]}",
+                   "{\"fileContractResolutions\":[{\"parent\":{},\"type\":\"expiration\",\"resolution\":null}]}", "{\"fileContractResolutions\":[{\"parent\":{},\"type\":\"storageProof\",\"resolution\":null}]}"}} \cup
+              {E("decoded", <<1, "json", "">>, x) : x \in {"{\"siacoinInputs\":[{}]}", "{\"siafundInputs\":[{}]}", "{\"signatures\":[{}]}", "{\"fileContractRevisions\":[{}]}", "{\"storageProofs\":[{}]}",
+                   "{\"fileContracts\":[{}]}", "{\"minerFees\":[\"0\"]}", "{\"arbitraryData\":[null]}", "{\"signatures\":[{\"coveredFields\":{\"signatures\":[0,0,1]}}]}"}}
+
+Catalogue == DecodedCat \cup CurSingles \cup CurPairs \cup ProofCat \cup CoveredCat \cup SigCat \cup ParentCat \cup SuppCat \cup PolicyCat \cup ResCat \cup EraCat \cup SizeCat \cup WinCat \cup ShapeCat
 Families == {e.fam : e \in Catalogue}
 
 VARIABLE step
